@@ -34,17 +34,35 @@ def scn_throttle(ctx):
     me.submit = submit_hook
     in_force = [None]
     if ckind == "static":
-        cnt = ctx.int("count", 1 if block else 0, p.get("cmax", 3))
+        # (enumerated, not a symbolic int: the library does arithmetic on the count, and an int subclass's raw
+        # payload is read directly by C-level consumers such as slices - no hook to make that symbolic)
+        lo_ = 1 if block else 0
+        cnt = lo_ + ctx.choice(p.get("cmax", 3) - lo_ + 1, "count")
         count = cnt
     elif ckind == "none":
         count = None
     else:
         ncall = [0]
+        hk = [0]
+        lastv = [max(p["dyn_menu"])] if p.get("dyn_menu") else [None]
 
         def count():
             k = ncall[0]
             ncall[0] += 1
             # the constructor's first call establishes the first value in force: it does not raise
+            if p.get("dyn_menu"):
+                # a small menu of limits (e.g. 1 then 0: the limit drops below the number in flight); only
+                # the hand-over thread's calls are scripted, other callers see the value in force
+                menu = p["dyn_menu"]
+                if threading.current_thread().name.startswith("ThrottleExecutor"):
+                    kk = hk[0]
+                    hk[0] += 1
+                    v = menu[ctx.choice(len(menu), "count-h%d" % kk)] if kk < p.get("dyn_calls", 6) else max(menu)
+                    lastv[0] = v
+                else:
+                    v = lastv[0]
+                ev.add("count_ret", value=v)
+                return v
             c = (ctx.choice(3 if k == 0 else 4, "count%d" % k)) if k < p.get("dyn_calls", 6) else 0
             # 0 -> 1, 1 -> 2, 2 -> None, 3 -> raise
             if c == 3:
@@ -57,6 +75,8 @@ def scn_throttle(ctx):
     dur = None
     if p.get("dur") == "long":
         dur = ctx.real("dur", lo=1, hi=5)
+    elif p.get("dur") == "verylong":
+        dur = ctx.real("dur", lo=40, hi=50)  # longer than the executor's periodic re-check of a dynamic count
     errors = []
     try:
         ex = ThrottleExecutor(me, count, block=block)
@@ -70,7 +90,12 @@ def scn_throttle(ctx):
 
     def submitter(g):
         for sp in g:
-            sp["fn"] = (lambda i=sp["i"]: i * 10)
+            def fn_(i=sp["i"]):
+                # with params fails: the callable may raise (a failed callable frees its slot as well)
+                if p.get("fails") and ctx.choice(2, "fails%d" % i):
+                    raise RuntimeError("callable %d fails" % i)
+                return i * 10
+            sp["fn"] = fn_
             sp["t_call"] = sched.now()
             ev.add("submit_call", i=sp["i"])
             try:
@@ -216,7 +241,9 @@ def scn_throttle(ctx):
                 continue
             ctx.check("future-done", f.done(), "submission %d not done" % sp["i"])
             if f.done():
-                ctx.check("own-outcome", outcome(f) == ("value", sp["i"] * 10), "submission %d: %r" % (sp["i"], outcome(f)))
+                o_ = outcome(f)
+                ok_ = o_ == ("value", sp["i"] * 10) or (p.get("fails") and o_[0] == "error" and isinstance(o_[1], RuntimeError) and ("callable %d fails" % sp["i"]) in str(o_[1]))
+                ctx.check("own-outcome", ok_, "submission %d: %r" % (sp["i"], o_))
     else:
         ctx.check("count0-nothing-handed-over", not handed, handed)
     # (d) blocking mode: submit() blocks only while the queue already holds count entries
@@ -280,8 +307,9 @@ def plan(tier, seed):
         items.append(dict(scenario=T, params=dict(nsub=2, submitters=1, count="none", block=False), bounds=dict(P=1)))
         items.append(dict(scenario=T, params=dict(nsub=2, submitters=1, count="none", block=True), bounds=dict(P=1)))
         items.append(dict(scenario=T, params=dict(nsub=2, submitters=1, count="static", block=True, dur="long", cmax=1), bounds=dict(P=1)))
-        items.append(dict(scenario=T, params=dict(nsub=3, submitters=1, count="static", block=False, dur="long"), bounds=dict(P=0)))
+        items.append(dict(scenario=T, params=dict(nsub=3, submitters=1, count="static", block=False, dur="long", fails=True), bounds=dict(P=0)))
         items.append(dict(scenario=T, params=dict(nsub=2, submitters=1, count="dynamic", block=False, dyn_calls=3), bounds=dict(P=0)))
+        items.append(dict(scenario=T, params=dict(nsub=3, submitters=1, count="dynamic", block=False, dyn_calls=4, dyn_menu=[1, 0], dur="verylong"), bounds=dict(P=0)))
         items.append(dict(scenario=T, params=dict(nsub=3, submitters=1, count="static", block=False, cancel=True, cmax=2), bounds=dict(P=0)))
         items.append(dict(scenario=T, params=dict(nsub=4, submitters=1, count="static", block=False, cancel=True, cancel_any=True, cmax=1, dur="long"), bounds=dict(P=0)))
     else:
